@@ -79,8 +79,15 @@ impl Actor for Remotable {
     }
 }
 
+/// A local-only message type: `serializable()` keeps its default (false), so the actor does NOT
+/// support remote messaging and is never advertised; it can nevertheless decode a wire message, so
+/// that a (forbidden) delivery is observable as a handler invocation instead of a decode failure.
 struct PlainMsg;
-impl ractor::Message for PlainMsg {}
+impl ractor::Message for PlainMsg {
+    fn deserialize(_: SerializedMessage) -> Result<Self, ractor::message::BoxedDowncastErr> {
+        Ok(PlainMsg)
+    }
+}
 struct Plain(Log);
 impl Actor for Plain {
     type Msg = PlainMsg;
